@@ -15,7 +15,7 @@ from .common import dominates
 PROPERTY = 'C18'
 
 META = {
-    'bounds': {'quick': 'two particles sharing one personal-best record; particles of dimension <=2, m<=2 objectives; leader archives of <=2 members and swarms of <=2 (global best), population size N in {1,2}',
+    'bounds': {'quick': 'personal best with 4-5 objectives; position updates in 5 dimensions; more leaders than the population size; two particles sharing one personal-best record; particles of dimension <=2, m<=2 objectives; leader archives of <=2 members and swarms of <=2 (global best), population size N in {1,2}',
                'thorough': 'dimension <=3; leader archive <=3, swarm <=3, N in {2,3}'},
     'stubs': ['random.uniform (module global of artap.algorithm_swarm) -> fresh real in its range',
               'round(x, 1) -> ROUND1(x): multiple of 0.1 within 0.05 of x',
